@@ -278,7 +278,7 @@ def fixed_bases():
 
 def correspond(ctx):
     rng = ctx.rng
-    bases = fixed_bases() + [rand_basis(rng) for _ in range(ctx.n(3000, 60000))]
+    bases = fixed_bases() + [rand_basis(rng) for _ in range(ctx.n(3000, 30000))]
     reqs, outs, nontriv, classes = [], [], [], []
     for b in bases:
         for keep in (False, True):
@@ -494,7 +494,7 @@ def search(ctx):
 
     rng = ctx.rng
     mult = 4 if ctx.escalated else 1
-    bases = fixed_bases() + [rand_basis(rng) for _ in range(ctx.n(1200, 20000) * mult)]
+    bases = fixed_bases() + [rand_basis(rng) for _ in range(ctx.n(1200, 8000) * mult)]
     items = [(b, keep) for b in bases for keep in (False, True)]
     mos = [op[1] for op in c12.constructs()] + [rand_mo_args(rng) for _ in range(ctx.n(6000, 80000) * mult)]
     with mp.get_context("fork").Pool(min(14, mp.cpu_count())) as pool:
